@@ -198,10 +198,12 @@ var cliKinds = []string{"star", "comb", "sliver", "angle", "rectholes", "spiky",
 // fillTables generates the source tables (needs the grid of the set).
 func fillTables(cc *CLICase, pl *cliPlan, gs *grid.Set) {
 	rng := fw.NewRng(cc.Seed ^ 0x5151)
+	rngT := fw.NewRng(cc.Seed ^ 0x7155)
 	req := gs.Request(pl.ids)
 	nt := 1 + rng.Intn(3)
 	for ti := 0; ti < nt; ti++ {
 		t := TableSpec{Name: fmt.Sprintf("%s_%d", fw.Pick(rng, []string{"pand", "Vlak", "t"}), ti), GeomCol: fw.Pick(rng, []string{"geom", "geometry"}), SRS: pl.srs, Cols: genAttrCols(rng), GeomFirst: rng.Chance(1, 5)}
+		t.Cols = withTimeCols(rngT, t.Cols)
 		t.GeomType = fw.Pick(rng, []string{"POLYGON", "POLYGON", "MULTIPOLYGON", "POINT", "LINESTRING"})
 		if ti == 0 {
 			t.GeomType = fw.Pick(rng, []string{"POLYGON", "MULTIPOLYGON"})
@@ -510,6 +512,12 @@ func judgeCLI(c *fw.Ctx, cc *CLICase) {
 				c.Rec.Add(k, int64(v))
 			}
 			c.Rec.Count("tables_compared")
+			for _, col := range t.Cols {
+				if col.Type == "DATE" || col.Type == "DATETIME" || col.Type == "TIMESTAMP" {
+					c.Rec.Count("tables_compared_with_DATE/DATETIME/TIMESTAMP_columns(compared_as_instants)")
+					break
+				}
+			}
 			if t.GeomType == "POLYGON" || t.GeomType == "MULTIPOLYGON" {
 				c.Rec.Count("polygon_tables_compared")
 				if len(exp) < len(t.Rows) {
@@ -644,9 +652,9 @@ func init() {
 				p.Merged.Violations = append(p.Merged.Violations, fw.Violation{Property: "C13", Class: "data-race", Msg: "race detector report from the race-built texel binary:\n" + tailS(blk, 2500), Case: json.RawMessage(`{"note":"race report; schedule dependent"}`)})
 			}
 		},
-		Rule: "the real binary (built from /repo with -tags verif) on generated sources: 1-3 tables (POLYGON/MULTIPOLYGON tables with generated polygons placed in NetherlandsRDNewQuad, WebMercatorQuad, EuropeanETRS89_LAEAQuad or a synthetic dyadic set loaded through hook H2; POINT/LINESTRING tables), 0-40 features, 1-3 ids in random order, page sizes 1/2/3/1000, all flag combinations (every fourth run configured through the documented environment variables instead of the command line), target names with 0-2 dots in sub-directories, pre-existing target files with sentinel tables/rows when overwrite is on; oracle: exit status, exactly the files <name>_<id><ext>, per file the same tables as the source, polygon tables row by row = attributes + what snap.SnapPolygon (called in-process) returns for that id (feature omitted when nothing, several polygons -> MULTIPOLYGON, parts merged), other tables row-for-row copies, nothing of the planted file left; outside-grid polygon without the ignore flag -> non-zero exit; built-in non-quadtree sets -> non-zero exit and no target file; non-trivial = run whose polygon tables produced rows (or a demanded failure)",
+		Rule: "the real binary (built from /repo with -tags verif) on generated sources: 1-3 tables (POLYGON/MULTIPOLYGON tables with generated polygons placed in NetherlandsRDNewQuad, WebMercatorQuad, EuropeanETRS89_LAEAQuad or a synthetic dyadic set loaded through hook H2; POINT/LINESTRING tables), 0-40 features, INTEGER/REAL/TEXT attributes and (1 column in 5) DATE/DATETIME/TIMESTAMP attributes with and without UTC offsets compared as instants, 1-3 ids in random order (every 10th run 9-16 ids with feature sizes spread over all requested levels), page sizes 1/2/3/1000, all flag combinations (every fourth run configured through the documented environment variables instead of the command line), target names with 0-2 dots in sub-directories, pre-existing target files with sentinel tables/rows when overwrite is on; oracle: exit status, exactly the files <name>_<id><ext>, per file the same tables as the source, polygon tables row by row = attributes + what snap.SnapPolygon (called in-process) returns for that id (feature omitted when nothing, several polygons -> MULTIPOLYGON, parts merged), other tables row-for-row copies, nothing of the planted file left; outside-grid polygon without the ignore flag -> non-zero exit; built-in non-quadtree sets -> non-zero exit and no target file; non-trivial = run whose polygon tables produced rows (or a demanded failure)",
 		Required: func(t string) []string {
-			r := []string{"configured_through_environment_variables", "polygon_tables_compared", "copied_tables_compared", "class:overwrite_of_planted_target", "features_omitted_at_some_matrix", "polygon_delivered_as_multipolygon", "target_in_subdirectory", "rows_compared", "non_empty_polygon_tables_in_runs_with_9_to_16_tile_matrices"}
+			r := []string{"configured_through_environment_variables", "polygon_tables_compared", "copied_tables_compared", "class:overwrite_of_planted_target", "features_omitted_at_some_matrix", "polygon_delivered_as_multipolygon", "target_in_subdirectory", "rows_compared", "tables_compared_with_DATE/DATETIME/TIMESTAMP_columns(compared_as_instants)", "non_empty_polygon_tables_in_runs_with_9_to_16_tile_matrices"}
 			if t == "thorough" {
 				r = append(r, "class:non_quadtree_set", "class:outside_polygon_without_ignore", "class:outside_polygon_ignored", "dots_in_target_name:0", "dots_in_target_name:2")
 			}
